@@ -22,7 +22,20 @@ def hooks_of(chk, ci):
     if enter is None:
         raise AnalysisError("Calibration.__enter__ not found")
     pre = post = None
-    for n in ast.walk(enter):
+    # (the registrations may sit in a private method __enter__ calls: `self.hook_handles.append(self._register_hooks())`)
+    nodes, seen, todo = [], set(), [enter]
+    while todo:
+        fn_ = todo.pop()
+        if id(fn_) in seen:
+            continue
+        seen.add(id(fn_))
+        for n in ast.walk(fn_):
+            nodes.append(n)
+            if isinstance(n, ast.Call) and isinstance(n.func, ast.Attribute) and isinstance(n.func.value, ast.Name) and n.func.value.id in ("self", "cls") and n.func.attr.startswith("_") and not n.func.attr.startswith("__"):
+                m_ = chk.repo.method(ci, n.func.attr)
+                if m_ is not None:
+                    todo.append(m_[1])
+    for n in nodes:
         if isinstance(n, ast.Call) and isinstance(n.func, ast.Name) and n.args:
             a = n.args[0]
             if isinstance(a, ast.Attribute) and U(a.value) == "self":
@@ -67,14 +80,36 @@ def run(chk):
                 init_ok = U(ef[3]) == "momentum" and "momentum" in [a.arg for a in init.args.args + init.args.kwonlyargs]
     chk.require("C12.R1", f"{mi.rel}:{init.lineno}", init_ok and len(stores) == 1, f"self.momentum is assigned once, from the constructor parameter `momentum` ({len(stores)} store(s) in the package)", "Calibration.__init__", "self.momentum definition", "Calibration(momentum=m) with m != the value actually stored")
     # -- EMA helper: the module-level function whose result is stored into module.<x>_scale
+    # (the helper may also be a private method of the mode: such a method is kept as a call - not expanded - when a hook hands it a scale buffer and it
+    #  does more than forward its arguments to another function)
+    from .. import core as _core
+    skip_of = {}
+    for n_ in ci.node.body:
+        if isinstance(n_, ast.FunctionDef) and n_.name.startswith("_") and not n_.name.startswith("__"):
+            static = any(U(d) == "staticmethod" for d in n_.decorator_list)
+            ps_ = positional_params(n_)[0 if static else 1:]
+            handed = any(isinstance(c_, ast.Call) and isinstance(c_.func, ast.Attribute) and c_.func.attr == n_.name and c_.args and U(c_.args[0]) in ("module.input_scale", "module.output_scale")
+                         for h_ in (pre, post) for c_ in ast.walk(h_))
+            rets_ = [_val(r_.value) for r_ in ast.walk(n_) if isinstance(r_, ast.Return) and r_.value is not None]
+            forwards = bool(rets_) and all(isinstance(r_, ast.Call) and r_.args and ps_ and U(r_.args[0]) == ps_[0] for r_ in rets_)
+            if handed and not forwards and len(ps_) >= 3:
+                skip_of[n_.name] = (n_, 0 if static else 1)
+    added = set(skip_of) - set(_core.KEEP_METHODS)
+    _core.KEEP_METHODS |= added
     ema_calls = []
+    ema_skip = {}
     for fn in (pre, post):
         for p in paths_of(_with_boolean_helpers(fn), inline_helpers="methods"):
             for ef in p.effects:
-                if ef[0] == "store" and ef[2] in ("input_scale", "output_scale") and isinstance(_val(ef[3]), ast.Call) and isinstance(_val(ef[3]).func, ast.Name):
-                    r = repo.resolve(mi, _val(ef[3]).func.id)
+                v_ = _val(ef[3]) if ef[0] == "store" and ef[2] in ("input_scale", "output_scale") else None
+                if isinstance(v_, ast.Call) and isinstance(v_.func, ast.Name):
+                    r = repo.resolve(mi, v_.func.id)
                     if r is not None and isinstance(r[1], ast.FunctionDef):
                         ema_calls.append((fn, p, ef, r[1]))
+                elif isinstance(v_, ast.Call) and isinstance(v_.func, ast.Attribute) and v_.func.attr in skip_of and U(v_.func.value) in ("self", "cls", ci.name, "type(self)"):
+                    ema_calls.append((fn, p, ef, skip_of[v_.func.attr][0]))
+                    ema_skip[id(skip_of[v_.func.attr][0])] = skip_of[v_.func.attr][1]
+    _core.KEEP_METHODS -= added
     emas = {id(x[3]): x[3] for x in ema_calls}
     chk.floor("C12.R1", len(emas), 1, "EMA helper functions reached from the hooks")
     if len(emas) > 1:
@@ -82,8 +117,8 @@ def run(chk):
     seen_sites = set()
     for fn, p, ef, ema in ema_calls:
         call = _val(ef[3])
-        b = bind_call(ema, call)
-        eparams = positional_params(ema)
+        b = bind_call(ema, call, skip_first=ema_skip.get(id(ema), 0))
+        eparams = positional_params(ema)[ema_skip.get(id(ema), 0):]
         if b is None or len(eparams) < 3:
             chk.unknown("C12.R1", f"{mi.rel}:{ef[4]}", "EMA call not bindable")
             continue
@@ -99,7 +134,7 @@ def run(chk):
     # -- R2: the EMA helper itself
     for ema in emas.values():
         emi = repo.module_of(ema)
-        s, n, m = positional_params(ema)[:3]
+        s, n, m = positional_params(ema)[ema_skip.get(id(ema), 0):][:3]
         ps = paths_of(ema)
         first = [p for p in ps if p.end[0] == "return" and U(p.end[1]) == n]
         rest_ = [p for p in ps if p.end[0] == "return" and p not in first]
@@ -171,8 +206,12 @@ def run(chk):
                 ok = False
         chk.require("C12.R2", f"{emi.rel}:{ema.lineno}", ok, f"{ema.name}: otherwise returns `{got_txt}` == {m}*{s} + (1-{m})*{n} as polynomials", ema.name, "EMA formula", "any second batch: the update is not the exponential moving average with the given momentum")
     # -- R3 / R6: the input hook
-    hook_paths(chk, repo, mi, pre, "input_scale", "C12.R3")
-    hook_paths(chk, repo, mi, post, "output_scale", "C12.R4")
+    _core.KEEP_METHODS |= added
+    try:
+        hook_paths(chk, repo, mi, pre, "input_scale", "C12.R3")
+        hook_paths(chk, repo, mi, post, "output_scale", "C12.R4")
+    finally:
+        _core.KEEP_METHODS -= added
     # -- R5 absmax_scale
     absmax(chk)
     if chk.pid == "C12":
@@ -182,39 +221,7 @@ def run(chk):
     chk.assume("torch calls global forward pre-hooks as hook(module, args) and forward hooks as hook(module, args, output)")
 
 
-_BOOL_FN: dict = {}
-
-
-def _with_boolean_helpers(fn):
-    """`fn` with the calls to module-level helpers that return a truth value (a guard moved into `_quantizes_activations(module)`) replaced
-    by their expression; helpers that compute scales stay calls (the rules look for them)."""
-    from ..core import _CLASS_OF, _MODULE_OF, inline_predicates, module_lookup
-    if id(fn) in _BOOL_FN:
-        return _BOOL_FN[id(fn)]
-
-    def boolean(e):
-        if isinstance(e, ast.BoolOp):
-            return all(boolean(v) for v in e.values)
-        if isinstance(e, ast.UnaryOp) and isinstance(e.op, ast.Not):
-            return True
-        if isinstance(e, ast.Compare):
-            return True
-        if isinstance(e, ast.Constant) and isinstance(e.value, bool):
-            return True
-        return isinstance(e, ast.Call) and U(e.func) in ("isinstance", "issubclass", "hasattr", "callable", "bool")
-
-    def lookup(name):
-        h = module_lookup(fn, name)
-        if isinstance(h, ast.FunctionDef) and all(r.value is not None and boolean(r.value) for r in ast.walk(h) if isinstance(r, ast.Return)):
-            return h
-        return None
-
-    inl = inline_predicates(fn, lookup)
-    for reg in (_MODULE_OF, _CLASS_OF):
-        if id(fn) in reg:
-            reg[id(inl)] = reg[id(fn)]
-    _BOOL_FN[id(fn)] = inl
-    return inl
+from ..core import with_boolean_helpers as _with_boolean_helpers  # noqa: E402
 
 
 def guard_facts(p):
